@@ -1052,6 +1052,7 @@ func checkC15(P *Program, r *Result, tier string) {
 		th := fa.prove(ineqGE(vd.Len, linConst(4096)), direct.Block(), rootCtx)
 		r.add("THRESHOLD", shortName(fn), "guard", "the direct path is taken only for len(v) ≥ the no-copy threshold (4096)", P.pos(instrPos(direct)), th, "")
 	}
+	directSites(P, A, r)
 	// CALLERS
 	for _, typ := range []string{"Base", "BaseResp"} {
 		fn := P.Method(relBase, typ, "FastWriteNocopy")
@@ -1149,4 +1150,90 @@ func calleeLinear(fa *FA, c *ssa.Call) *Lin {
 		}
 	}
 	return out
+}
+
+// directSites: WriteDirect tells the outside where a piece belongs only through
+// its remaining-capacity argument, so every other place in the library that
+// invokes it must follow the convention the two Nocopy writers follow: a
+// non-nil writer, the 4-byte big-endian length of the payload stored in the
+// linear buffer, and a remaining capacity that is the room right behind it.
+func directSites(P *Program, A *Analysis, r *Result) {
+	known := map[*ssa.Function]bool{}
+	for _, n := range []string{"WriteBinaryNocopy", "WriteStringNocopy"} {
+		if fn := P.Method(relThrift, "BinaryProtocol", n); fn != nil {
+			known[fn] = true
+		}
+	}
+	var fns []*ssa.Function
+	for fn := range P.AllFuncs {
+		if !inRepo(fn) || fn.Blocks == nil || fn.Synthetic != "" || known[fn] || strings.Contains(fnPkgPath(fn), "/internal/") {
+			continue
+		}
+		fns = append(fns, fn)
+	}
+	sort.Slice(fns, func(i, j int) bool { return fns[i].Pos() < fns[j].Pos() })
+	for _, fn := range fns {
+		for _, c := range callsIn(fn) {
+			direct, ok := c.(*ssa.Call)
+			if !ok || !isInvokeOf(c, "WriteDirect") || len(c.Common().Args) != 2 {
+				continue
+			}
+			if n, ok := direct.Common().Value.Type().(*types.Named); !ok || n.Obj().Name() != "NocopyWriter" {
+				continue
+			}
+			r.Funcs[shortName(fn)] = true
+			fa := A.fa(fn)
+			pos := P.pos(instrPos(direct))
+			r.add("NIL-SAFE", shortName(fn), "call", "WriteDirect only with a non-nil writer", pos, guardedNonNil(direct, direct.Common().Value), "")
+			pay := direct.Common().Args[0]
+			if sc := staticCallNamed(pay, "StringToBinary"); sc != nil {
+				pay = sc.Common().Args[0]
+			}
+			pd := fa.sliceDesc(pay)
+			rem := fa.expand(direct.Common().Args[1])
+			okRem, detail := false, "no 4-byte length prefix of the payload found in the linear buffer"
+			if pd != nil && pd.Len != nil {
+				for _, c2 := range callsIn(fn) {
+					cc, ok := c2.(*ssa.Call)
+					cal := c2.Common().StaticCallee()
+					if !ok || cal == nil {
+						continue
+					}
+					args := c2.Common().Args
+					var dst, val ssa.Value
+					switch {
+					case cal.Name() == "PutUint32" && fnPkgPath(cal) == "encoding/binary" && len(args) == 3:
+						dst, val = args[1], args[2]
+					case cal.Name() == "WriteI32" && inRepo(cal) && len(args) == 3:
+						dst, val = args[1], args[2]
+					default:
+						continue
+					}
+					if cv, isCv := val.(*ssa.Convert); isCv {
+						val = cv.X
+					}
+					if !(instrDominates(cc, direct) || instrDominates(direct, cc)) || !fa.proveEq(fa.expand(val), pd.Len, direct.Block()) {
+						continue
+					}
+					d := fa.sliceDesc(dst)
+					if d == nil || d.Root == nil || d.Off == nil {
+						continue
+					}
+					if _, isParam := d.Root.(*ssa.Parameter); !isParam {
+						continue
+					}
+					bd := fa.sliceDesc(d.Root)
+					want := bd.Len.sub(d.Off).addConst(-4)
+					if fa.proveEq(substWriteResults(fa, rem), substWriteResults(fa, want), direct.Block()) {
+						okRem, detail = true, ""
+					} else {
+						detail = "the prefix is stored at offset " + A.linString(d.Off) + " but the remaining capacity passed is " + A.linString(rem)
+					}
+				}
+			}
+			r.add("REMAIN", shortName(fn), "arg", "remaining capacity = the room right behind the payload's 4-byte length prefix", pos, okRem, detail)
+			th := pd != nil && pd.Len != nil && fa.prove(ineqGE(pd.Len, linConst(4096)), direct.Block(), rootCtx)
+			r.add("THRESHOLD", shortName(fn), "guard", "the direct path is taken only for len(v) ≥ the no-copy threshold (4096)", pos, th, "")
+		}
+	}
 }
